@@ -4,6 +4,7 @@
    ends_blank, has_string, eff_width, exempt, in_skipped, reportable.
    Offending (Lemmas.v) is the declarative specification.  scan returns None
    exactly when the unchecked `line_len -= 1` underflows (scan_none_iff). *)
+From V Require Import C07.Skipped.
 From V Require Import Base.Text C07.Model C07.Lemmas.
 From Coq Require Import Sorted.
 Open Scope N_scope.
@@ -210,3 +211,30 @@ Theorem truncate_crlf_gap :
   /\ firstn 4 [97; 13; 10; 13; 10] = [97; 13; 10; 13].
 Proof. exact truncate_crlf_gap_l. Qed.
 Print Assumptions truncate_crlf_gap.
+
+(* the range recorded for a skip-marked item (push_skipped_with_span, after the repair) is exactly the OUTPUT lines of the
+   item from its first non-attribute line to its last line, wherever the code before it moved the item to *)
+Theorem skipped_range_exact : forall s : skip_site, site_ok s ->
+  forall n, (fst (range_recorded s) <= n <= snd (range_recorded s)) <->
+            (exists k, site_lo_src s <= k <= src_start s + body_nl s /\ n = out_line_of s k).
+Proof. exact range_recorded_exact. Qed.
+Print Assumptions skipped_range_exact.
+
+(* hence no line of a skip-marked item is ever reported, for every stream, configuration and position of the item *)
+Theorem skipped_item_lines_never_reported : forall cfg skipped sel (st : stream) errs (s : skip_site) n k,
+  site_ok s -> In (range_recorded s) skipped ->
+  scan cfg skipped sel st = Some errs -> In (n, k) errs ->
+  forall j, site_lo_src s <= j <= src_start s + body_nl s -> n <> out_line_of s j.
+Proof. exact skipped_item_never_reported. Qed.
+Print Assumptions skipped_item_lines_never_reported.
+
+(* the pre-repair range (first line in SOURCE coordinates) agreed with it exactly when the item did not move; when the code
+   before it shrank a line of the item fell outside the range, when it grew a formatted line before the item fell inside:
+   the genuine defect repaired in /repo *)
+Theorem skipped_range_pre_repair_refuted :
+  (forall s, site_ok s -> (range_pre_repair s = range_recorded s <-> out_before s + 1 = src_start s)) /\
+  (exists s k, site_ok s /\ site_lo_src s <= k <= src_start s + body_nl s /\
+               ~ (fst (range_pre_repair s) <= out_line_of s k <= snd (range_pre_repair s))) /\
+  (exists s n, site_ok s /\ n < out_line_of s (src_start s) /\ fst (range_pre_repair s) <= n <= snd (range_pre_repair s)).
+Proof. exact (conj range_pre_repair_same_iff (conj range_pre_repair_shrunk_misses range_pre_repair_grown_covers_other)). Qed.
+Print Assumptions skipped_range_pre_repair_refuted.
